@@ -35,7 +35,7 @@ CLAIM = {
             "(b1) on EVERY byte string accepted by the specification's decoder in the package dialect (32-bit range errors, wire-type mismatch is an error, empty map-entry record ignored) Unmarshal returns the value of the decoded message - the package decoder is the standard decoder up to three named switches; "
             "(b) hence Unmarshal decodes every legal encoding of every message of the descriptor to the value of that message, and the specification reads the same bytes as that message; the specification decodes its own canonical encoder. "
             "Set aside by explicit boolean predicates, each shown necessary by a machine-checked counterexample replayed on the real code: repeated fields tagged zigzag/fixed (F33), maps without entries (F34), pointers to empty messages (F17), a zigzag tag on a struct-typed field. "
-            "Found and repaired through this check: decodeBool read one byte of a padded varint; TypeOf ignored fixed32/fixed64 tags.",
+            "Found and repaired through this check: decodeBool read one byte of a padded varint; TypeOf ignored fixed32/fixed64 tags. Open findings carried by the harness alone, outside the descriptor universe of the model: F43 (a zigzag tag on a struct-typed field), F46 (a nested gogoproto-style custom message is written with two length prefixes), F48 (field numbers of 65536 and more are kept in 16 bits).",
     "note": "Trusted: Coq kernel; the hand-written package model (tied to the code by correspondence on ~17k reference encodings and re-encodings per run); the transcription of the specification (tied to google.golang.org/protobuf v1.26.0 on the same inputs plus ~6k mutated ones); extraction+driver; harness and descriptor construction. "
             "Theorem (b) excludes byte arrays, RawMessage and maps with pointer values (correspondence only); packed repeated scalars and groups are excluded by the property / not transcribed.",
 }
